@@ -17,6 +17,10 @@ enum Turn {
     Controller,
     Thread(usize),
     FreeRun,
+    /// the execution was given up (step budget exhausted while every live thread
+    /// spins on a lock: a deadlock among the scheduled threads); threads stay
+    /// parked for good and are not joined
+    Abandoned,
 }
 
 struct BState {
@@ -117,6 +121,9 @@ pub fn scheduled() -> bool {
 
 #[derive(Debug, Default, Clone)]
 pub struct SchedResult {
+    /// every live thread was spinning on a lock when the step budget ran out:
+    /// a deadlock among the scheduled threads. They are left parked (leaked).
+    pub deadlocked: bool,
     pub steps: usize,
     pub switches: usize,
     pub exhausted: bool,
@@ -201,6 +208,17 @@ pub fn run_threads(ctx: &Arc<RunCtx>, schedule: &[u8], max_steps: usize, bodies:
         }
         if res.steps >= max_steps {
             res.exhausted = true;
+            let all_waiting = (0..n).filter(|i| !g.done[*i]).all(|i| {
+                g.waiting[i] || g.site_of[i].ends_with(BLOCKED_SUFFIX) || g.site_of[i].ends_with(".wait")
+            });
+            if all_waiting {
+                // letting them run freely would block them for real and hang the join
+                res.deadlocked = true;
+                g.turn = Turn::Abandoned;
+                drop(g);
+                res.panics = panics.lock().unwrap().clone();
+                return res;
+            }
             g.turn = Turn::FreeRun;
             baton.cv.notify_all();
             break;
